@@ -331,5 +331,5 @@ def cases(draw, max_trials=60):
 
 def run(ctx):
     quick = ctx.tier == 'quick'
-    ctx.run_hypothesis('cases', 320 if quick else 5000, max_trials=40 if quick else 60)
+    ctx.run_hypothesis('cases', 320 if quick else 20000, max_trials=40 if quick else 60)
     shutil.rmtree(runner.scratch_dir('c15'), ignore_errors=True)
